@@ -176,6 +176,7 @@ func checkC03(ctx *RunCtx) int {
 	// a process that sets up both variants repeatedly (a table that is damaged by building the other
 	// variant's options shows up as a wrong category order in the sweeps)
 	var std, sd combination.PowerRankings
+	c03Warmup(rep)
 	for i := 0; i < 3; i++ {
 		std = pokerface.NewStardardGameOptions().CombinationPowers
 		sd = pokerface.NewShortDeckGameOptions().CombinationPowers
@@ -196,4 +197,39 @@ func checkC03(ctx *RunCtx) int {
 		Required:    []string{"hands_52_standard", "hands_36_shortdeck", "hands_36_standard", "hands_52_shortdeck"},
 		Assumptions: []string{"strictly increasing class scores over a total reference order is equivalent to the pairwise statement (higher score iff wins, equal iff tie)"},
 	})
+}
+
+// c03Warmup uses the library the way a process serving both variants does before the tables are
+// examined: games of both variants are created, started, rebuilt from JSON, and states are loaded
+// into existing game objects - also across variants (a table rolling back to a snapshot). None of
+// this may change what the shipped ranking tables say.
+func c03Warmup(rep *Report) {
+	defer func() {
+		if e := recover(); e != nil {
+			rep.Inc("warmup_panics")
+		}
+	}()
+	mk := func(short bool) pokerface.Game {
+		c := &Cfg{N: 3, Banks: []int64{100, 100, 100}, SB: 5, BB: 10, Limit: "no", Hole: 2, Short: short}
+		g := pokerface.NewPokerFace().NewGame(c.Opts())
+		g.Start()
+		return g
+	}
+	for i := 0; i < 3; i++ {
+		gStd, gSD := mk(false), mk(true)
+		stStd, stSD := cloneGS(gStd.GetState()), cloneGS(gSD.GetState())
+		if i%2 == 0 {
+			gStd.LoadState(cloneGS(stSD)) // a standard game object is re-used for a short-deck snapshot
+		} else {
+			gSD.LoadState(cloneGS(stStd)) // and the other way round
+		}
+		pokerface.NewPokerFace().NewGameFromState(cloneGS(stStd))
+		pokerface.NewPokerFace().NewGameFromState(cloneGS(stSD))
+		for _, g := range []pokerface.Game{gStd, gSD} {
+			g.ReadyForAll()
+			g.PayBlinds()
+			g.ReadyForAll()
+		}
+		rep.Inc("warmup_rounds")
+	}
 }
